@@ -339,4 +339,10 @@ def r4(F, R):
     R.floor(10)
 
 
-RULES = [("R4", r4, None), ("R1", r1, None), ("R2", r2, None), ("R3", r3, None)]
+def r5(F, R):
+    """Stats algebra of the combinators (Tee = max, Or = sum, wrappers delegate getter-for-getter) — the same rule as C01.R4."""
+    from . import c01
+    c01.r4(F, R)
+
+
+RULES = [("R5", r5, None), ("R4", r4, None), ("R1", r1, None), ("R2", r2, None), ("R3", r3, None)]
